@@ -1,6 +1,7 @@
 """Determinism self-test: every sampled seed is executed twice in this
 interpreter and once more in a fresh interpreter under another PYTHONHASHSEED;
-the event-log digests must be identical."""
+the event-log digests must be identical.  Every run's recorded schedule is also
+re-executed in explicit mode (no PRNG draw) and must give the same digest."""
 import importlib
 import json
 import os
@@ -26,7 +27,12 @@ def collect(pid, tier, seed, groups, runs):
   mod = importlib.import_module('sim.props.%s' % pid.lower())
   merged = runner.drive(mod, tier, seed, groups, runs, 0, {'collect': True, 'minimise': False})
   rows = sorted((c['seed'], c['digest'], tuple(c['violations'])) for c in merged['collected'])
-  return rows, merged['harness_errors']
+  errs = list(merged['harness_errors'])
+  for c in merged['collected']:
+    if c.get('replay_digest') != c['digest']:
+      errs.append('seed %s: recorded schedule replays to digest %s, the run had %s' % (
+        c['seed'], c.get('replay_digest'), c['digest']))
+  return rows, errs
 
 
 def main(args):
